@@ -25,7 +25,7 @@ RULE = ("states = distinct trivia variants / lexeme strings; transitions = real 
 
 LONG_TRIVIA = ["// " + "x" * 1030 + "\n", "// " + " " * 5000 + "salt: 'old'\n", "/* " + "y" * 70000 + " */", " " * 3000, "\n" * 600, "// " + "z" * 70000 + "\n",
                "/* " + "line\n" * 3000 + "*/", "\t" * 2000]
-TRIVIA = ["/* a *\ufeff/ b */", "/* \ufeff */", "// \ufeff x\n", "/* *\u200b/ x */", "/* *\u00ad/ x */", "// c\r x\n", "// c\x0b x\n", "// c\x0c x\n", "// c\x1c x\n", "// c\x85 x\n", "// c\u2028 x\n", "// c\u2029, \"b\" weighted 1\n", "/* c\r x */",
+TRIVIA = ["// def x {\n", "/* def */", "/* def e { return 1 weighted 1 } */", "// undef def redefine\n", "// def demo { return 1 weighted 1 } /*\n", "/* a *\ufeff/ b */", "/* \ufeff */", "// \ufeff x\n", "/* *\u200b/ x */", "/* *\u00ad/ x */", "// c\r x\n", "// c\x0b x\n", "// c\x0c x\n", "// c\x1c x\n", "// c\x85 x\n", "// c\u2028 x\n", "// c\u2029, \"b\" weighted 1\n", "/* c\r x */",
           " ", "\t", "\n", "\r\n", "  \n  ", "\f", "\v", "\r", "// c", "/* */ //", "// c\n", "//\n", "// ' \"\n", "// /* \n", "// */ x\n", "/* c */", "/**/", "/***/",
           "/* * / */", "/* ' */", '/* " */', "/* // */", "/* if return */", "/* a */ /* b */", "/* a */\n/* b */", "/* m\nl */",
           "/* é */", "// é\n", "/*\n*/", "/* x **/", "/* a */ // b\n", "/* } */", "/* \"s\" weighted 1, */"]  # fmt: skip
